@@ -28,19 +28,27 @@ def write_replay(prop_id, payload):
 
 
 def guarded(ctx, fn):
-    """Run a check phase. An exception that escapes it from INSIDE the implementation (innermost frame in the suds
-    tree under test), at a call the check makes unguarded because it must succeed, is a failure of the property on
-    that call - not a harness error. Anything raised by the harness itself still ends the run with exit 2."""
+    """Run a check phase. An exception that escapes it from INSIDE the implementation (the suds tree under test is
+    running below the last harness frame), at a call the check makes unguarded because it must succeed, is a failure
+    of the property on that call - not a harness error. Anything raised by the harness itself (or by a stub the
+    harness handed to the implementation) still ends the run with exit 2."""
     import traceback
     try:
         fn(ctx)
     except Exception as e:
         frames = traceback.extract_tb(e.__traceback__)
         suds_dir = os.path.join(os.path.realpath(common.REPO), "suds") + os.sep
-        inner = frames[-1] if frames else None
-        if inner is None or not os.path.realpath(inner.filename).startswith(suds_dir):
+        # (also when the exception comes out of a library the implementation called - xml.sax, pickle, urllib -: what
+        # counts is that, below the last frame of the harness, the implementation was running)
+        harness_dir = os.path.dirname(os.path.realpath(__file__)) + os.sep
+        in_suds = [os.path.realpath(f.filename).startswith(suds_dir) for f in frames]
+        in_harness = [os.path.realpath(f.filename).startswith(harness_dir) for f in frames]
+        last_h = max([i for i, h in enumerate(in_harness) if h], default=-1)
+        below = [i for i, sd in enumerate(in_suds) if sd and i > last_h]
+        if not frames or not below:
             raise
-        site = [f for f in frames if not os.path.realpath(f.filename).startswith(suds_dir)][-1]
+        inner = frames[below[-1]]
+        site = frames[last_h] if last_h >= 0 else frames[0]
         ctx.fail("the implementation raised at a call that must succeed",
                  {"check_site": "%s:%d %s" % (os.path.relpath(site.filename, os.path.dirname(os.path.dirname(os.path.abspath(__file__)))), site.lineno, site.line),
                   "raised_in": "%s:%d" % (os.path.relpath(inner.filename, common.REPO), inner.lineno)},
